@@ -308,6 +308,16 @@ class Report:
         self.violations.append({"kind": kind, "sigs": sorted(set(sigs)), "case": case, "detail": detail})
 
     def finish(self, coverage, assumptions=()):
+        replay = os.environ.get("VERIF_REPLAY_DIGEST")
+        if replay:
+            # `./vf replay <file>`: the same exploration is re-run and the recorded case looked up in it
+            for v in self.violations:
+                if sha(json.dumps(v, sort_keys=True, default=str))[:16] == replay:
+                    print(f"REPRODUCED property={self.prop} digest={replay} kind={v['kind']}")
+                    print(json.dumps(v["detail"], default=str)[:600])
+                    return EXIT_VIOLATION
+            print(f"NOT REPRODUCED property={self.prop} digest={replay} ({len(self.violations)} violations on this run)")
+            return EXIT_OK
         cov = dict(coverage)
         unknown, matched = [], {}
         for v in self.violations:
